@@ -26,7 +26,7 @@ ASSUMPTIONS = [
     'steady-state initialisation is off',
 ]
 
-IC_TEXTS = ['5.0', '-2.5', '10', '0.125', '1e1', '3.', '2*3', 'sqrt(4.)', '1/4', '-(2.0)']
+IC_TEXTS = ['5.0', '0.0', '-2.5', '10', '0', '0.125', '1e1', '3.', '2*3', 'sqrt(4.)', '1/4', '-(2.0)', '0.', '-0.0', '1 - 1']
 BAD_TEXTS = ['undefined_name', '[1., 2.', 'foo(3)', '1/0', '[1.0, 2.0] + nothing']
 
 
@@ -208,7 +208,7 @@ def model_case(draw):
     for sec, var in [('HH', 'F'), ('GOV', 'F'), ('HH', 'AfterTax'), ('HH', 'LAG_F'), ('BUS', 'PROF'), ('TF', 'TaxRate'),
                      ('HH', 'AlphaFin')]:
         if draw(gen.chance(1, 4)):
-            ics.append([sec, var, draw(st.sampled_from([5.0, -2.5, 10, 0.125, '3.5', 80]))])
+            ics.append([sec, var, draw(st.sampled_from([5.0, 0.0, -2.5, 10, 0.125, '3.5', 80, 0]))])
     return {'T': T, 'values': vals, 'form': form, 'ics': ics, 'via': draw(st.sampled_from(['model', 'sector']))}
 
 
